@@ -158,11 +158,16 @@ def trace_validation(ctx, sftp_io, quick):
             stats['untraced'] += 1
         if r['trace'] is None or r['problems']:
             continue
-        ans = [x for e in r['trace']['ev'] if e['e'] == 'ans'
-               for x in e['a']]
-        fresh = 'wr' if c['op'] in ('write', 'put') else 'rd'
-        offs = [x['off'] for x in ans if x['ph'] == fresh]
-        r['ooo'] = any(b < a for a, b in zip(offs, offs[1:]))
+        # out of order: data consumed in an earlier batch lies behind data
+        # consumed in a later batch
+        hi = [max([x['off'] for x in e['a'] if x['k'] in ('data', 'ok')],
+                  default=-1)
+              for e in r['trace']['ev'] if e['e'] == 'ans']
+        lo = [min([x['off'] for x in e['a'] if x['k'] in ('data', 'ok')],
+                  default=10**9)
+              for e in r['trace']['ev'] if e['e'] == 'ans']
+        r['ooo'] = any(hi[i] > lo[j] for i in range(len(hi))
+                       for j in range(i + 1, len(hi)))
         stats['out_of_order'] += r['ooo']
         stats['batches>1'] += any(e['e'] == 'ans' and len(e['a']) > 1
                                   for e in r['trace']['ev'])
